@@ -286,6 +286,7 @@ pub fn run(ctx: &Ctx) -> Report {
     let (n_full, n_small) = ctx.tier.pick((3, 4), (4, 5));
     let sk = engine_in::skeletons(n_full, n_small);
     let n_sk = sk.len();
+    let heavy_depth = ctx.tier.pick(2usize, 3usize);
     let acc_c = sk
         .par_iter()
         .enumerate()
@@ -302,6 +303,12 @@ pub fn run(ctx: &Ctx) -> Report {
                         let _ = tag;
                         judge_w(&Case::new("entry", b).text(&["skeleton+fault"]), &mut acc);
                     });
+                    if toks.len() <= heavy_depth {
+                        engine_in::heavy_faults(&buf, &mut |tag, b| {
+                            let _ = tag;
+                            judge_w(&Case::new("entry", b).text(&["skeleton+fault"]), &mut acc);
+                        });
+                    }
                     if thorough {
                         // fault pairs: truncate x header length perturbation
                         for k in (20..buf.len()).step_by(3) {
@@ -355,7 +362,7 @@ pub fn run(ctx: &Ctx) -> Report {
     Report {
         acc,
         exhaustive: true,
-        rule: "all byte strings up to the short bound into every entry point; 65536 type fields x 7 length fields x cookie ok/off x 3 buffer lengths; skeleton space x 4 classes with every single structural fault; every typed decoder on its value space and on every type code; large-input family around the 16-bit boundary; on every accepted buffer all read-only operations, plain and under a TRACE subscriber; evaluations counts guarded calls, distinct_nontrivial counts accepted buffers that were fully inspected".into(),
+        rule: "all byte strings up to the short bound into every entry point; 65536 type fields x 7 length fields x cookie ok/off x 3 buffer lengths; skeleton space x 4 classes with every single structural fault (shallow skeletons also with every value of every header / attribute-header byte and every single-bit flip); every typed decoder on its value space and on every type code; large-input family around the 16-bit boundary; on every accepted buffer all read-only operations, plain and under a TRACE subscriber; evaluations counts guarded calls, distinct_nontrivial counts accepted buffers that were fully inspected".into(),
         bounds: json!({"short_max_len": max_short, "skeletons": n_sk, "classes": 4, "faults": if thorough { "single + truncate x length pairs" } else { "single" }, "watchdog_ms": 20000}),
         assumptions: vec!["an abort (stack overflow, allocation failure) kills the checker and is reported as machinery failure, not as a verdict".into()],
         ..Default::default()
